@@ -44,7 +44,7 @@ func requireOps(c *Ctx, fnName string, want []string, n *int) {
 	p, r := c.Prog, c.R
 	fn := p.Func(fnName)
 	if fn == nil {
-		r.Fatalf("anchor %s missing", fnName)
+		missingAnchor(r, fnName)
 		return
 	}
 	got, float := opConsts(fn)
@@ -152,7 +152,7 @@ func c18(c *Ctx) {
 		if f := p.Func(nme); f != nil {
 			entries = append(entries, f)
 		} else {
-			r.Fatalf("anchor %s missing", nme)
+			missingAnchor(r, nme)
 		}
 	}
 	boundsFor(c, "C18", entries)
